@@ -1,10 +1,10 @@
 SPECIFICATION Spec
 CONSTANTS KnownDevs = {}
 INVARIANTS
-  C04_TablesAreImage
-  C04_InterfacesThroughout
   InEnvelope
   Up4Envelope
+  C04_TablesAreImage
+  C04_InterfacesThroughout
 POSTCONDITION TraceAccepted
 ALIAS Alias4
 CHECK_DEADLOCK FALSE
